@@ -43,6 +43,88 @@ pub fn small_spec(run_seed: u64) -> PipeSpec {
     }
 }
 
+/// Large archives with a small directory (few, long segments): only when the archive is longer
+/// than 256 x its directory do truncations near the end carry a "directory length" that passes
+/// the range check, so that the directory parser runs over arbitrary payload bytes.
+pub fn big_spec(run_seed: u64) -> PipeSpec {
+    let mut s = small_spec(run_seed);
+    let mut r = Rng::new(run_seed ^ 0xB16);
+    s.gen.n_samples = r.range(1, 2) as u32;
+    s.gen.ref_contigs = r.range(2, 5) as u32;
+    s.gen.max_len = *r.pick(&[40_000u32, 80_000, 120_000]);
+    s.gen.tiny_pct = 0;
+    s.gen.shared_small = false;
+    s.gen.dup_pct = 0;
+    s.gen.extra_pct = 0;
+    s.gen.snp_permille = *r.pick(&[1u32, 10]);
+    s.gen.indel_permille = 0;
+    s.cfg.segment_size = *r.pick(&[20_000u32, 60_000]);
+    s.cfg.k = r.range(15, 25) as u32;
+    s.cfg.queue_capacity = "2G".into();
+    let nfiles = if s.cfg.single_file { 1 } else { s.gen.n_samples as usize };
+    s.presentations = vec![crate::gen::fasta::Presentation::plain(); nfiles];
+    s
+}
+
+/// A container file written by the real `Archive` writer: a few streams, a few large parts whose
+/// bytes are random, zero-rich or directory-like (length-prefixed integers and NUL-terminated
+/// names), i.e. payloads on which a misdirected directory parse can get far.
+#[derive(Clone, Debug, Serialize, Deserialize)]
+pub struct SynthSpec {
+    pub seed: u64,
+}
+
+fn synth_archive(spec: &SynthSpec) -> Option<Vec<u8>> {
+    use ragc_common::Archive;
+    let mut r = Rng::new(spec.seed);
+    let nstreams = r.range(1, 6) as usize;
+    let mut plan: Vec<(String, Vec<(Vec<u8>, u64)>)> = Vec::new();
+    let target = *r.pick(&[30_000usize, 60_000, 120_000, 250_000]);
+    for i in 0..nstreams {
+        let name = match r.below(4) { 0 => format!("x{i}d"), 1 => "params".to_string() + &"p".repeat(i), 2 => format!("stream-{i}"), _ => format!("s{i}") };
+        let nparts = r.range(1, 4) as usize;
+        let mut parts = Vec::new();
+        for _ in 0..nparts {
+            let len = r.range(1, (target / nstreams / nparts).max(2) as u64) as usize;
+            let style = r.below(4);
+            let mut d = Vec::with_capacity(len);
+            while d.len() < len {
+                match style {
+                    0 => d.push(r.below(256) as u8),
+                    1 => d.push(if r.pct(80) { 0 } else { r.below(256) as u8 }),
+                    2 => {
+                        // directory-like: small count, short names, small varints
+                        d.push(1);
+                        d.push(r.below(4) as u8);
+                        for _ in 0..r.range(1, 6) { d.push(b'a' + r.below(26) as u8); }
+                        d.push(0);
+                        d.push(if r.pct(50) { 0 } else { 1 });
+                        d.push(r.below(3) as u8);
+                    }
+                    _ => d.push(r.below(3) as u8),
+                }
+            }
+            d.truncate(len);
+            parts.push((d, *r.pick(&[0u64, 1, 255, 65_536, u64::MAX])));
+        }
+        plan.push((name, parts));
+    }
+    let world = ragc_common::verif::World::new();
+    let (res, world) = crate::simrun::run_plain(world, move || -> bool {
+        let mut a = Archive::new_writer();
+        if a.open(crash::PATH).is_err() { return false; }
+        for (name, parts) in &plan {
+            let id = a.register_stream(name);
+            for (d, m) in parts {
+                if a.add_part(id, d, *m).is_err() { return false; }
+            }
+        }
+        a.close().is_ok()
+    });
+    if res != Ok(true) { return None; }
+    world.get_file(crash::PATH)
+}
+
 #[derive(Serialize, Deserialize)]
 struct CrashSpec {
     source: PipeSpec,
@@ -51,14 +133,22 @@ struct CrashSpec {
 }
 
 fn judge_archive(spec: &PipeSpec, bytes: &[u8], only: &[u64], index: u64, profile: &str, want_sample: bool) -> RunReport {
+    judge_archive_with(&json!({"source": spec}), spec.gen.n_samples, bytes, only, index, profile, want_sample)
+}
+
+/// `source`: `{"source": PipeSpec}` or `{"synth": SynthSpec}` - what the replay file needs to
+/// rebuild the archive.
+fn judge_archive_with(source: &Value, n_samples: u32, bytes: &[u8], only: &[u64], index: u64, profile: &str, want_sample: bool) -> RunReport {
     let mut r = RunReport::default();
     let tag = format!("idx{index}");
     let mut first: Option<(String, String, u64)> = None;
     let mut counts = [0u64; 6];
-    let all: Vec<u64> = if only.is_empty() { (0..bytes.len() as u64).collect() } else { only.to_vec() };
+    // longest prefix first: the sim-disk file is cut in place
+    let all: Vec<u64> = if only.is_empty() { (0..bytes.len() as u64).rev().collect() } else { only.to_vec() };
     let arch_id = seed::fnv64(bytes);
+    let mut judge = crash::PrefixJudge::new(bytes, &tag);
     for &n in &all {
-        let res = crash::judge_prefix(bytes, n as usize, &tag);
+        let res = judge.judge(n as usize);
         r.evaluations += 1;
         r.extra_digests.push(seed::fnv_mix(arch_id, n));
         r.max("max_io_calls_per_prefix", res.io_calls);
@@ -86,12 +176,15 @@ fn judge_archive(spec: &PipeSpec, bytes: &[u8], only: &[u64], index: u64, profil
     r.count("container_open_ok_on_prefix", counts[4]);
     r.count("archives", 1);
     r.count("archive_bytes", bytes.len() as u64);
+    if bytes.len() > 65_536 {
+        r.count("archives_over_64KiB", 1);
+    }
     r.count(&format!("profile.{profile}.prefixes"), all.len() as u64);
     r.count("fault.crash_at", all.len() as u64);
     r.max("max_archive_len", bytes.len() as u64);
     r.nontrivial = false;
     if want_sample {
-        r.sample = Some(json!({"index": index, "archive_len": bytes.len(), "samples": spec.gen.n_samples,
+        r.sample = Some(json!({"index": index, "archive_len": bytes.len(), "samples": n_samples,
             "prefixes_judged": all.len(), "profile": profile,
             "example": "prefix n of the archive on the sim disk -> Archive::open (reader) and Decompressor::open must return Err"}));
     }
@@ -101,12 +194,39 @@ fn judge_archive(spec: &PipeSpec, bytes: &[u8], only: &[u64], index: u64, profil
             property: "C14".into(),
             class,
             detail: format!("[{profile} build] {detail}"),
-            spec: serde_json::to_value(&CrashSpec { source: spec.clone(), prefixes: vec![n] }).unwrap(),
+            spec: {
+                let mut v = source.clone();
+                v["prefixes"] = json!([n]);
+                v
+            },
             engine: "crash-enum".into(),
             index,
             event_log_digest: seed::fnv_mix(arch_id, n),
         });
     }
+    r
+}
+
+enum Kind { Small, Big, Synth }
+
+fn kind_of(index: u64) -> Kind {
+    match index % 80 {
+        39 => Kind::Big,
+        19 | 59 => Kind::Synth,
+        _ => Kind::Small,
+    }
+}
+
+fn run_synth(sy: &SynthSpec, only: &[u64], index: u64, profile: &str) -> RunReport {
+    let Some(bytes) = synth_archive(sy) else {
+        let mut r = RunReport::default();
+        r.evaluations = 1;
+        r.count("source_create_failed", 1);
+        return r;
+    };
+    // the judge wants a PipeSpec for the replay file; synthetic sources carry their own spec
+    let mut r = judge_archive_with(&json!({"synth": sy}), bytes.len() as u32, &bytes, only, index, profile, false);
+    r.count("synthetic_container_archives", 1);
     r
 }
 
@@ -156,14 +276,39 @@ impl Prop for C14 {
     }
     fn profiles(&self) -> Vec<&'static str> { vec!["fast", "checked"] }
     fn run_chunk(&self, ctx: &Ctx, indices: &[u64]) -> Vec<RunReport> {
-        let specs: Vec<(PipeSpec, Vec<u64>)> = indices.iter().map(|&i| (small_spec(seed::run_seed(ctx.base_seed ^ 0xC14, i)), vec![])).collect();
-        run(specs, indices, ctx.profile)
+        // sub-scenarios by index: small pipeline archives (most), large pipeline archives with a
+        // small directory, synthetic container files
+        let mut out: Vec<(u64, RunReport)> = Vec::new();
+        let mut pipe_idx = Vec::new();
+        let mut pipe_specs = Vec::new();
+        for &i in indices {
+            let rs = seed::run_seed(ctx.base_seed ^ 0xC14, i);
+            match kind_of(i) {
+                Kind::Synth => out.push((i, run_synth(&SynthSpec { seed: rs }, &[], i, ctx.profile))),
+                Kind::Big => { pipe_idx.push(i); pipe_specs.push((big_spec(rs), vec![])); }
+                Kind::Small => { pipe_idx.push(i); pipe_specs.push((small_spec(rs), vec![])); }
+            }
+        }
+        for (i, r) in pipe_idx.iter().zip(run(pipe_specs, &pipe_idx, ctx.profile)) {
+            out.push((*i, r));
+        }
+        out.sort_by_key(|x| x.0);
+        out.into_iter().map(|x| x.1).collect()
     }
     fn replay(&self, ctx: &Ctx, spec: &Value) -> RunReport {
         if let Some(idx) = spec["from_index"].as_u64() {
             let prefixes: Vec<u64> = spec["prefixes"].as_array().map(|a| a.iter().filter_map(|x| x.as_u64()).collect()).unwrap_or_default();
-            let s = small_spec(seed::run_seed(ctx.base_seed ^ 0xC14, idx));
-            return run(vec![(s, prefixes)], &[idx], ctx.profile).pop().unwrap();
+            let rs = seed::run_seed(ctx.base_seed ^ 0xC14, idx);
+            return match kind_of(idx) {
+                Kind::Synth => run_synth(&SynthSpec { seed: rs }, &prefixes, idx, ctx.profile),
+                Kind::Big => run(vec![(big_spec(rs), prefixes)], &[idx], ctx.profile).pop().unwrap(),
+                Kind::Small => run(vec![(small_spec(rs), prefixes)], &[idx], ctx.profile).pop().unwrap(),
+            };
+        }
+        if spec.get("synth").is_some() {
+            let sy: SynthSpec = serde_json::from_value(spec["synth"].clone()).expect("bad C14 synth spec");
+            let prefixes: Vec<u64> = spec["prefixes"].as_array().map(|a| a.iter().filter_map(|x| x.as_u64()).collect()).unwrap_or_default();
+            return run_synth(&sy, &prefixes, 0, ctx.profile);
         }
         let c: CrashSpec = serde_json::from_value(spec.clone()).expect("bad C14 spec");
         run(vec![(c.source, c.prefixes)], &[0], ctx.profile).pop().unwrap()
